@@ -118,6 +118,8 @@ def run(ctx):
     r.done()
 
     r = ctx.rule('C09.O5', 'the patch is per instance: PyYAML\'s class-level table is not written', floor=1)
+    for pr in M.init_problems.get('yatiml.loader:Loader', []):
+        r.fail('yatiml.loader:Loader.__init__:patch-not-unconditional-per-instance', loc, pr)
     r.check(not M.shared_table_mutated and not M.load_aliases_class_table,
             'after evaluating Loader.__init__ the class-level table equals the one read from yaml/resolver.py and the '
             'instance table is a distinct object',
